@@ -142,13 +142,17 @@ fn alts_short(alts: &[Alt]) -> String {
 // ---------------------------------------------------------------------------
 
 pub fn gen_case(rng: &mut Rng, c02: bool, thorough: bool) -> CrashCase {
+  // swarm: long documents (multi-write files and log records) in one run of
+  // eight; a large id space with bursts of adds in one run of twenty-five
+  let big_every = if rng.chance(1, 8) { 2 + rng.below(3) as u32 } else { 0 };
+  let many = rng.chance(1, if c02 { 80 } else { 30 });
   let cfg = Cfg {
     storage: StorageKind::Fs,
     profile: *rng.pick(&[Profile::Basic, Profile::Basic, Profile::Nested]),
     positions: rng.chance(1, 2),
-    ids: 2 + rng.usize(3),
+    ids: if many { if c02 { 60 + rng.usize(40) } else { 130 + rng.usize(60) } } else { 2 + rng.usize(3) },
     transparent: rng.chance(1, 3),
-    odd_ids: rng.chance(1, 4),
+    odd_ids: !many && rng.chance(1, 4),
   };
   // C01 too runs over disks that earlier crashes left behind (orphan files,
   // leftover temp files, un-truncated logs)
@@ -176,6 +180,8 @@ pub fn gen_case(rng: &mut Rng, c02: bool, thorough: bool) -> CrashCase {
       max_handles: 1,
       overlap: false,
       weights,
+      big_every,
+      burst: if many { if c02 { 40 + rng.below(40) as u32 } else { 100 + rng.below(80) as u32 } } else { 0 },
     };
     let mut ops = gen_ops(rng, &cfg, &p);
     if s > 0 && rng.chance(1, 2) {
@@ -939,6 +945,13 @@ pub fn run_case(case: &CrashCase, wroot: &Path, c02: bool, stats: &mut Stats) ->
   let ids = SimIds::new();
   install_ids(&ids);
   let root = wroot.join("a");
+  stats.add(
+    "probe.long_documents",
+    case.sessions.iter().flat_map(|s| s.ops.iter()).filter(|o| matches!(o, Op::Add { ver, .. } if crate::work::is_big(*ver))).count() as u64,
+  );
+  if case.cfg.ids >= 100 {
+    stats.inc("probe.large_id_space_runs");
+  }
   let mut ctx = Ctx {
     cfg: &case.cfg,
     wroot,
@@ -1052,6 +1065,16 @@ pub fn run_case(case: &CrashCase, wroot: &Path, c02: bool, stats: &mut Stats) ->
       }
       if pos < create_end {
         continue;
+      }
+      // long logs (bursts of adds, long documents): a seeded sample of the
+      // boundaries, always including the last 150 (the in-flight tail)
+      const SWEEP_LIMIT: usize = 500;
+      if case.pin.is_none() && total > SWEEP_LIMIT && pos + 150 < total {
+        let h = derive(case.image_seed, "sweep-sample", pos as u64);
+        if (h % total as u64) as usize >= SWEEP_LIMIT - 150 {
+          continue;
+        }
+        ctx.stats.inc("probe.sweep_sampled_boundaries");
       }
       let b = boundary_at(&run, pos);
       let choices: Vec<Choice> = match &case.pin {
